@@ -438,7 +438,19 @@ type deferred struct {
 	call *ssa.CallCommon
 }
 
+// cutSpec makes runBlocks treat one loop header as a cut-point: on first arrival the phis take the given
+// (arbitrary, symbolic) values instead of the entry-edge values; on the second arrival execution stops and the
+// back-edge values of the phis are reported.
+type cutSpec struct {
+	header   *ssa.BasicBlock
+	override []Value
+	arrivals int
+}
+
+type cutBack struct{ vals []Value }
+
 type frame struct {
+	cut      *cutSpec
 	fn       *ssa.Function
 	regs     map[ssa.Value]Value
 	defers   []deferred
@@ -647,6 +659,17 @@ func (x *Exec) runBlocks(fr *frame, b *ssa.BasicBlock, pred *ssa.BasicBlock) Val
 				phiVals = append(phiVals, x.ctx.Ite(merged.cond, a, c))
 			} else {
 				phiVals = append(phiVals, x.get(fr, phi.Edges[predIndex(b, pred)]))
+			}
+		}
+		if fr.cut != nil && b == fr.cut.header {
+			fr.cut.arrivals++
+			if fr.cut.arrivals == 1 {
+				if len(fr.cut.override) != nphi {
+					x.unsupported("cut-point: %d phis at the header, %d values given", nphi, len(fr.cut.override))
+				}
+				phiVals = fr.cut.override
+			} else {
+				panic(cutBack{phiVals})
 			}
 		}
 		for i := 0; i < nphi; i++ {
